@@ -1,5 +1,5 @@
 SPECIFICATION Spec
 CONSTANTS
   Dump = FALSE
-INVARIANTS ValidInput
+INVARIANTS ValidInput L2HtmlRefines L2HtmlTotal
 CHECK_DEADLOCK FALSE
